@@ -24,4 +24,26 @@ def main(tier):
                 ('MC_C01_struct', {'MaxNodes': 4}, 'struct4')]
     for module, consts, label in runs:
         replay.run_cfg(chk, module, consts, label)
+    trace_part(chk, tier)
     return chk.finish()
+
+
+def trace_part(chk, tier):
+    """B2: larger random trees and nested selectors; the real select is recorded, TLC validates."""
+    import random
+    from harness import gen, trace
+    rng = random.Random(common.SEED * 7919 + 1)
+    gen.EXCLUDE = {'nth'}     # An+B belongs to C02
+    ndocs, nsel = (150, 12) if tier == 'quick' else (1500, 16)
+    jobs = []
+    for k in range(ndocs):
+        d = gen.rand_doc(rng, nmax=14 if tier == 'quick' else 22)
+        asts = [gen.rand_list(rng, depth=rng.choice([1, 2, 2, 3])) for _ in range(nsel)]
+        els = [i + 1 for i, kk in enumerate(d['kind']) if kk == 'e']
+        targets = [0] + ([rng.choice(els)] if len(els) > 1 else [])
+        jobs.append(('d%d' % k, d, asts, targets, None))
+    lines = trace.record_select(jobs)
+    trace.validate(chk, lines, 'Trace_Select', 'trace-select')
+    import json
+    e = json.loads(lines[0])
+    chk.sample({'trace_event': {'css': e['css'], 'target': e['target'], 'res': e['res'], 'nodes': len(e['doc']['parent'])}}, cap=13)
